@@ -220,6 +220,8 @@ class SymDomain(ConcDomain):
             if isinstance(b, int):
                 return dag.powi(dag.lift(a), b)
             return dag.powi(dag.lift(a), dag.lift(b))
+        if e["k"] == "Call" and base == "std::make_pair" and len(args) == 2:
+            return PairObj(first=Cell(it.rvalue(args[0], fr), "first"), second=Cell(it.rvalue(args[1], fr), "second"))
         if e["k"] == "Call" and base in ("std::min", "std::max") and len(args) == 2:
             a, b = it.rvalue(args[0], fr), it.rvalue(args[1], fr)
             if is_sym(a) or is_sym(b):
@@ -227,6 +229,9 @@ class SymDomain(ConcDomain):
                     A_, B_ = dag.lift(a), dag.lift(b)
                     if A_.op == "c" and B_.op == "c":
                         return dag.const(min(A_.a, B_.a) if base == "std::min" else max(A_.a, B_.a))
+                if getattr(self, "opaque_minmax", False):
+                    # effect-only runs (which elements are touched, by whom): the value is irrelevant, keep it uninterpreted
+                    return dag.func("max" if base == "std::max" else "min", dag.lift(a), dag.lift(b))
                 raise AnalysisBroken("min/max of symbolic values at %s" % ir.locstr(e))
         if e["k"] == "Construct" and e.get("t", "").startswith("std::array<std::pair<") and not args:
             return self.default_value(e["t"], {"name": "array"}, fr)
